@@ -17,6 +17,7 @@ package c17
 import (
 	"bytes"
 	"fmt"
+	"math/big"
 	"math/rand"
 	"sort"
 	"time"
@@ -250,6 +251,37 @@ func runNodeCase(seed string, nc nodeCase, res *jobResult) (fs []finding) {
 		return infra(fmt.Errorf("nodes are in rounds %d and %d, not %d", wr, sr, nc.Target))
 	}
 	want := expAt(nc.Target)
+	// what the real library does from the genesis set: one call by `target`, and single steps
+	var l0 []*types.Validator
+	for _, v := range w.list {
+		l0 = append(l0, w.in.mkJ(v))
+	}
+	libJump, libWalk := types.NewValidatorSet(l0), types.NewValidatorSet(l0)
+	guard(func() { libJump.IncrementAccum(nc.Target) })
+	guard(func() {
+		for i := 0; i < nc.Target; i++ {
+			libWalk.IncrementAccum(1)
+		}
+	})
+	cd, fx := a0.clone(), a0.clone()
+	m64c.incCoded(cd, nc.Target)
+	m64.incFixed(fx, nc.Target)
+	cdP := m64c.getProposer(cd)
+	sameAs := func(vs *types.ValidatorSet, m *machine, x *rSet) bool {
+		if len(vs.Validators) != len(x.Vals) || w.in.addrOf(vs.Copy().GetProposer().Address) != m.getProposer(x) {
+			return false
+		}
+		for i, v := range vs.Validators {
+			if x.Vals[i].A.Cmp(big.NewInt(v.Accum)) != 0 {
+				return false
+			}
+		}
+		return true
+	}
+	// the known deviation explains a disagreement only if the library itself deviates, in
+	// exactly the way the as-coded operator of the specification predicts (priorities and
+	// proposer), while its single steps follow the designed rotation
+	libDeviates := sameAs(libJump, m64c, cd) && sameAs(libWalk, m64, fx) && cdP != want
 	// both get the proposal of the proposer the specification names, then the block and the commit
 	params := types.DefaultConsensusParams()
 	block, parts := w.firstBlock(walker.c.VerifStatus().Validators.Hash(), params)
@@ -267,10 +299,8 @@ func runNodeCase(seed string, nc nodeCase, res *jobResult) (fs []finding) {
 		res.Steps++
 	}
 	if wp != sp || sp != want || !accepted["walker"] || !accepted["skipper"] {
-		cd := a0.clone()
-		m64c.incCoded(cd, nc.Target)
 		key := "node-disagreement/enter-new-round"
-		if wp == want && sp == m64c.getProposer(cd) {
+		if libDeviates && wp == want && sp == cdP {
 			key = keyPathDep // the skipping node did exactly what the as-coded operator predicts
 		}
 		r := rec()
@@ -279,6 +309,37 @@ func runNodeCase(seed string, nc nodeCase, res *jobResult) (fs []finding) {
 			nc.Powers, nc.Target, wp, nc.Skip, sp, want, want, accepted["walker"], accepted["skipper"]), record: r})
 		if key != keyPathDep {
 			return
+		}
+	}
+	// the fault evidence of the next block names the proposer of the round the block was
+	// committed in; VerifyFaultValEvidence recomputes it from the previous height's set
+	{
+		pc, err := w.vote(0, types.VoteTypePrecommit, nc.Target, id)
+		if err != nil {
+			return infra(err)
+		}
+		commit := &types.Commit{BlockID: id, Precommits: []*types.Vote{pc}}
+		verify := func(proposer int) error {
+			st := cs.NewStatus{ChainID: w.chain, LastValidators: walker.c.VerifStatus().Validators}
+			fvi := &types.FaultValidatorsEvidence{BlockHeight: types.BlockHeightOne, Round: nc.Target, FaultVal: w.in.ids[expAt(0)-1].pub, Proposer: w.in.ids[proposer-1].pub}
+			var e error
+			if p := guard(func() { e = cs.VerifyFaultValEvidence(st, commit, fvi) }); p != "" {
+				e = fmt.Errorf("panic: %s", p)
+			}
+			return e
+		}
+		res.Steps++
+		if e := verify(want); e != nil {
+			key := "evidence/proposer"
+			if libDeviates && verify(cdP) == nil {
+				key = keyPathDep // it accepts what the as-coded operator computes instead
+			}
+			r := rec()
+			r["specification_proposer"], r["error"] = want, e.Error()
+			fs = append(fs, finding{key: key, desc: fmt.Sprintf("validators with powers %v: VerifyFaultValEvidence rejects the evidence that names #%d -- the proposer of round %d for every node that walked there -- as proposer of the block committed in round %d: %v", nc.Powers, want, nc.Target, nc.Target, e), record: r})
+			if key != keyPathDep {
+				return
+			}
 		}
 	}
 	// the application's output for the next height, handed to the two nodes in opposite orders
